@@ -129,7 +129,7 @@ def search_property(pid, rep, replay=None):
     rep.broken = None
     info = prove(pid, rep)
     profiles = ("release", "checked") if pid in ("C08", "C15") else ("release",)
-    if not build_impl(rep, profiles=profiles, engine=(pid == "C15")):
+    if not build_impl(rep, profiles=profiles, engine=(pid in ("C15", "C08", "C07"))):
         proof_coverage(rep, info, {})
         return finish(rep, info)
     tier = rep.tier  # a broken tie enlarges only the cheap walk searches (bounded run time)
@@ -140,10 +140,12 @@ def search_property(pid, rep, replay=None):
         distinct = stats.get("searches", 0)
     elif pid == "C07":
         stats, kinds, cases = searchchk.check_stop(rep, tier, rep.seed)
+        sessionchk.check_stop_promptness(rep, stats)
         rule = "stop flag cleared after exactly N node-entry polls (hook), N sampled incl. 0, 1, last (quick) or every N (thorough); distinct = (position, N) pairs"
         distinct = stats.get("stop_points", 0)
     elif pid == "C08":
         stats, kinds, cases = searchchk.check_depth_limit(rep, tier, rep.seed)
+        sessionchk.check_combined_limits(rep, "C08", stats)
         rule = "search to depth a then limit b<a on the same table, depth 0 and 200, unlimited runs on tiny trees under a poll budget, checked build; distinct = searches"
         distinct = stats.get("searches", 0)
     elif pid == "C09":
